@@ -73,7 +73,7 @@ def upper_bound(t, depth=0, env=None):
         return t[2]
     if t[0] == "const" and isinstance(t[2], str) and t[2].endswith("::BITS"):
         return 128
-    if t[0] in ("some", "ok"):
+    if t[0] in ("some", "ok") and not (t[0] == "some" and is_call(t[1], name="next")):
         return upper_bound(t[1], depth + 1, env)
     if t[0] == "call" and t[1].rsplit("::", 1)[-1] in ("ilog2", "checked_ilog2") and len(t[2]) == 1:
         ty = t[4] if isinstance(t[4], str) else ""
